@@ -172,11 +172,21 @@ def build_model(cfg, therm, temperature_via='setter'):
         if se:
             if se['kind'] == 'constant':
                 pp.strainEnergy.setConstantElasticEnergy(se['value'])
+            elif se['kind'] == 'elastic':
+                from kawin.precipitation import StrainEnergy
+                sE = StrainEnergy('ellipsoid' if shape and shape['name'] in ('needle', 'plate') else ('cube' if shape and shape['name'] == 'cubic' else 'sphere'))
+                sE.setModuli(E=se['E'], nu=se['nu'])
+                sE.setEigenstrain(se['eigenstrain'])
+                pp.strainEnergy = sE
+                pp.validate()
         if 'infDiff' in cfg:
             pp.infinitePrecipitateDiffusion = bool(cfg['infDiff'].get(p, True)) if isinstance(cfg['infDiff'], dict) else bool(cfg['infDiff'])
         if 'Rmin' in cfg:
             pp.Rmin = cfg['Rmin']
         precs.append(pp)
+    for p, parents in (cfg.get('parents') or {}).items():
+        for q in parents:
+            precs[phases.index(p)].parentPhases.append(phases.index(q))
 
     sargs = schedule_args(cfg['schedule'], as_function=temperature_via.endswith('_function'))
     if temperature_via.startswith('ctor'):
